@@ -23,7 +23,10 @@ def _build_names(inputs):
 
     def run():
         names = inputs["names"]
-        files = [_sample(n, 20, 100 + i, extra={"count": 1000 + i}) for i, n in enumerate(names)]
+        # "header_names": the 12-character name INSIDE each sample header differs from the directory name (files renamed on the sampler's
+        # disk menu): siblings are the directory's names - what ls prints - not the header's
+        hdr = (lambda i, n: {"sample_name": f"HDR {i:02d} {'LR'[i % 2]}"}) if inputs.get("header_names") else (lambda i, n: {})
+        files = [_sample(n, 20, 100 + i, extra={"count": 1000 + i, **hdr(i, n)}) for i, n in enumerate(names)]
         model = expand_akai({"partitions": [{"volumes": [_vol(inputs.get("volume", "VOL"), files)]}]})
         raw = L.aw.build_akai_image(model)
         with L.Workdir() as w:
@@ -111,6 +114,14 @@ def _oracle_names(inputs, kind, val, env):
                 fl, fr = found.get(iL, [(None, None)])[0], found.get(iR, [(None, None)])[0]
                 if fl[0] is None or fl[0] != fr[0] or fl[1] != 0 or fr[1] != 1:
                     bad.append(f"C05.pair-merged-L0-R1({n!r},{other!r}: L at {fl}, R at {fr})")
+                else:
+                    # ... named after the common stem (judged when the stem is plain - letters, digits, inner blanks - and nothing else in the
+                    # directory claims it: then neither sanitising nor the '(n)' counter has a say)
+                    stem = m.group(1)
+                    plain = re.fullmatch(r"[A-Z0-9]+( [A-Z0-9]+)*", stem) is not None
+                    claimed = [x for x in names if x not in (n, other) and (x.strip() == stem or (PAIR.match(x) and PAIR.match(x).group(1) == stem))]
+                    if plain and not claimed and not fl[0].endswith("/" + stem + ".wav"):
+                        bad.append(f"C05.pair-named-after-the-common-stem({n!r},{other!r}: written as {fl[0]!r})")
     # a sample that is not half of a pair is exported as its own mono file
     for i, n in enumerate(names):
         m = PAIR.match(n)
@@ -177,7 +188,7 @@ def _small_names(tier, seed, shard=(0, 1)):
     for c in cases:
         k += 1
         if k % shard[1] == shard[0]:
-            yield {"names": c, "junk": JUNK if k % 9 == 0 else JUNK[:3]}
+            yield {"names": c, "junk": JUNK if k % 9 == 0 else JUNK[:3], **({"header_names": True} if k % 4 == 1 else {})}
 
 
 @contract("e2e:names", props=["C05", "C06", "C10"], abstract=True)
@@ -404,7 +415,9 @@ def _small_dirs(tier, seed, shard=(0, 1)):
     import random
     rnd = random.Random(5000 + seed)
     pool = ["KIT", "KIT", "FX+PADS", "A.", "A..", "B-", "..", ".", "STRINGS", "STRINGS", "X Y", "+A", "#1"]
-    cases = [["KIT", "KIT"], ["FX+PADS", "DRUMS"], ["A.", "A..", "A"], ["STRINGS", "BRASS", "STRINGS"], ["..", "."], ["B-", "B"], ["+A", "A"], ["KIT", "KIT", "KIT (2)"]]
+    cases = [["KIT", "KIT"], ["FX+PADS", "DRUMS"], ["A.", "A..", "A"], ["STRINGS", "BRASS", "STRINGS"], ["..", "."], ["B-", "B"], ["+A", "A"], ["KIT", "KIT", "KIT (2)"],
+             # a LONE volume (no sibling to be told apart from) still needs a safe name
+             ["+SOLO."], ["-X-"], ["A."], [".."], ["."], ["+A"], ["#1"], ["B-"]]
     for _ in range(6 if tier == "quick" else 80):
         cases.append([rnd.choice(pool) for _ in range(rnd.randint(1, 4))])
     k = 0
@@ -426,6 +439,6 @@ CONCRETE["e2e:dirs"] = {
     "build": _build_dirs, "small": _small_dirs, "oracle": _oracle_dirs, "shards": 4,
     "nontrivial": lambda i, s: s["kind"] == "return",
     "bound": "AKAI partitions of 1..4 volumes whose NAMES come from a 13-entry pool (duplicates, characters the exporter replaces, trailing dots / hyphens, "
-             "'.', '..'), two uniquely filled samples per volume; image as written, followed by 3000 zero bytes, or followed by a cut-off second partition",
+             "'.', '..'; every unsafe name also as the partition's ONLY volume), two uniquely filled samples per volume; image as written, followed by 3000 zero bytes, or followed by a cut-off second partition",
     "timeout_s": 60.0, "budget_quick": 150, "budget_thorough": 800,
 }
